@@ -9,7 +9,7 @@ import calendar
 import datetime as dt
 import re
 
-from lib import common, calcorr
+from lib import common, calcorr, periodcorr
 from lib.calcorr import fmt_dt, ref_fields, guarded, at
 
 PROP = 'C08'
@@ -544,4 +544,5 @@ def correspond(ctx):
     unit_agolater(ctx, bdays + (calcorr.all_days(1996, 2024) if ctx.thorough else dense))
     r = ctx.rng('unit-parsers')
     unit_parsers(ctx, bdays + dense + (calcorr.all_days() if ctx.thorough else calcorr.seeded_days(r, 1500)))
+    periodcorr.unit(ctx)          # the other computations of BaseDatePeriodParser (RTV.Model.Periods; theorems in Props/C10Periods)
     pipeline(ctx)
